@@ -136,7 +136,7 @@ class Run:
         outdir = os.path.join(os.environ.get("VERIF_OUT_DIR", os.path.join(VERIF, "out")), "violations", self.prop)
         if os.path.isdir(outdir):  # replay artefacts of earlier runs are stale
             for fn in os.listdir(outdir):
-                if fn.endswith(".json"):
+                if fn.endswith(".json") or fn.endswith("_test.py"):
                     os.remove(os.path.join(outdir, fn))
         reported, known_hits = [], collections.OrderedDict()
         for ck, (case, v) in self.viol_classes.items():
